@@ -19,19 +19,19 @@ def rf_cfg(bug="none", emit=False, sheets=3, tables=2):
             % (sheets, tables, bug, "INVARIANT EmitCase\n" if emit else ""))
 
 
-def build_doc(ns):
-    """ns: list of sheets, each a list of table name tokens -> Document with those sheets/tables (4x4, no headers)"""
+def build_doc(ns, ncols=4):
+    """ns: list of sheets, each a list of table name tokens -> Document with those sheets/tables (4 rows x ncols, no headers)"""
     from numbers_parser import Document
-    doc = Document(sheet_name=SHEET[1], table_name=TABLE[ns[0][0]], num_rows=4, num_cols=4, num_header_rows=0, num_header_cols=0)
+    doc = Document(sheet_name=SHEET[1], table_name=TABLE[ns[0][0]], num_rows=4, num_cols=ncols, num_header_rows=0, num_header_cols=0)
     for t in ns[0][1:]:
-        doc.sheets[0].add_table(TABLE[t], num_rows=4, num_cols=4, num_header_rows=0, num_header_cols=0)
+        doc.sheets[0].add_table(TABLE[t], num_rows=4, num_cols=ncols, num_header_rows=0, num_header_cols=0)
     for si, tabs in enumerate(ns[1:], start=2):
-        doc.add_sheet(SHEET[si], TABLE[tabs[0]], 4, 4)
+        doc.add_sheet(SHEET[si], TABLE[tabs[0]], 4, ncols)
         sh = doc.sheets[si - 1]
         sh.tables[0].num_header_rows = 0
         sh.tables[0].num_header_cols = 0
         for t in tabs[1:]:
-            sh.add_table(TABLE[t], num_rows=4, num_cols=4, num_header_rows=0, num_header_cols=0)
+            sh.add_table(TABLE[t], num_rows=4, num_cols=ncols, num_header_rows=0, num_header_cols=0)
     return doc
 
 
@@ -120,7 +120,9 @@ def case_job(job):
     from numbers_parser import Document
     from numbers_parser.generated import TSCEArchives_pb2 as TSCE
     rng = random.Random(seed)
-    doc = build_doc(ns)
+    # every fourth case lives in the columns AA.. of wide tables (column names of two letters)
+    cbase = 26 if idx % 4 == 3 else 0
+    doc = build_doc(ns, 4 + cbase)
     model = doc._model
     plan = []
     used = {}
@@ -135,6 +137,7 @@ def case_job(job):
                     continue
                 used[host] = k + 1
                 hr, hc = divmod(k, 4)
+                hc += cbase
                 r1, r2 = sorted([rng.randint(0, 3), rng.randint(0, 3)])
                 c1, c2 = sorted([rng.randint(0, 3), rng.randint(0, 3)])
                 if kind == "rect" and (r1, c1) == (r2, c2):
@@ -142,6 +145,7 @@ def case_job(job):
                     c2 = c1 + 1 if c1 < 3 else c1
                     if (r1, c1) == (r2, c2):
                         r1 = 2
+                c1, c2 = c1 + cbase, c2 + cbase
                 ab = [rng.random() < 0.5 for _ in range(4)]
                 if kind == "cell":
                     r2, c2 = r1, c1
